@@ -44,8 +44,7 @@ var knownDeviations = map[string][]dev{
 		{"EvalError.prototype#class", `s:"[object EvalError]"`}, {"RangeError.prototype#class", `s:"[object RangeError]"`},
 		{"ReferenceError.prototype#class", `s:"[object ReferenceError]"`}, {"SyntaxError.prototype#class", `s:"[object SyntaxError]"`},
 		{"TypeError.prototype#class", `s:"[object TypeError]"`}, {"URIError.prototype#class", `s:"[object URIError]"`}},
-	"c14.regexp-prototype-not-regexp": cat(forEach(rePrototypeProps, "#own", "b:false"), forEach(rePrototypeProps, "#behav.own", "b:false"),
-		[]dev{{"RegExp.prototype#also0", `s:"throw:non-error:string"`}, {"RegExp.prototype#also1", `s:"throw:non-error:string"`}}),
+	"c14.regexp-prototype-not-regexp":    cat(forEach(rePrototypeProps, "#own", "b:false"), forEach(rePrototypeProps, "#behav.own", "b:false")),
 	"c14.date-prototype-time-value":      {{"Date.prototype#also0", "n:0"}},
 	"c14.accessor-descriptor-panic":      forEach(scriptFns, "#descFail", `s:"caller:TypeError"`),
 	"c14.bound-function-own-properties":  cat(forEach(boundFns, "#hasProto", "b:true"), forEach(boundFns, "#caller", boundPill), forEach(boundFns, "#arguments", boundPill)),
